@@ -30,6 +30,12 @@ def gw(pid, design, text):
                 technique="TLC model checking of Gateway.tla (GatewayMC.tla focus runs) + replay of TLC behaviours into the real "
                           "Gateway + TLC trace validation of recorded executions (GatewayTrace.tla)")
 CHECKS.update({
+ "C01": gw("C01", "5 C01", "Every inbound line is the action Logic(l) of Gateway.tla whose first guards are well-formedness (Wire.tla mirror) and "
+        "Accept (Valid.tla); TLC checks NoEffectOnBad and that every reachable step is defined (incl. AcceptedImpliesDeliverable). "
+        "Hostile random histories (garbage, truncated frames, malformed stream payloads, harsh set_child_value arguments, raising "
+        "callbacks; serial-style and MQTT gateways) and TLC behaviours are run on the real gateway: any exception out of "
+        "logic()/run_job()/transport.send, or any state/out/callback change on a rejected line, rejects the trace; a real "
+        "_poll_queue thread must still answer a probe afterwards."),
  "C04": gw("C04", "5 C04", "Gateway.tla models every handler; TLC checks tree discipline, first-presentation-wins, last-writer-wins and "
         "exactly-one-callback-per-change on focus models (3 versions x 2 flavours). TLC-generated behaviours and random histories "
         "are run against the real gateway; after every step the full node/child/value tree and the callback log (taken from "
